@@ -99,6 +99,18 @@ Section C03.
                (fun H : fix_hash repaired = false => False_ind _ (Bool.diff_true_false H))).
   Qed.
 
+  (* the value/extension of an identified tag is literally a piece of the text as written (or the "/#" of the
+     placeholder spelling): for EVERY table, every text, every namespace, before and after the repairs -- no
+     well-formedness hypothesis.  Hence texts that are equal up to letter case but differ in the case of a value
+     or extension keep different values in both forms.  The COLUMN entry points (df_util.convert_to_form on a
+     Series/DataFrame, TabularInput/SpreadsheetInput.convert_to_long/short) are not modelled: that they convert
+     every cell as the cell alone is converted is TESTED (harness/c03_cols.py), not proved. *)
+  Theorem C03_extension_is_written : forall fx T sns t,
+    let h := hedtag_init foldc fx T sns t in
+    ht_entry h <> None ->
+    ht_ext h = s_slash_hash \/ exists i, ht_ext h = skipn i (skipn (length (get_schema_namespace t)) t).
+  Proof. exact (hedtag_extension_is_written foldc). Qed.
+
   (* ---- link to C02: the short and the long form are well-formed tag texts ----
      [tagbody] (Proofs/ParseRefine.v) = non-empty, first and last code point not U+0020, no ',' '(' ')': what
      the parser yields as a tag text and what C02's render_reparse asks of a rendering.
@@ -225,6 +237,7 @@ Print Assumptions C03_suffix_resolves.
 Print Assumptions C03_hedtag_suffix.
 Print Assumptions C03_remainder_verbatim.
 Print Assumptions C03_long_short_inverse.
+Print Assumptions C03_extension_is_written.
 Print Assumptions C03_short_form_wellformed.
 Print Assumptions C03_long_form_wellformed.
 Print Assumptions C03_print_short_long_reparse.
